@@ -163,7 +163,7 @@ VF_PROPERTY(json_forward, 5, "dynamic trees (depth <= 3; null, bool, int64/uint6
 	const bool nonDefault = cfg.stream || cfg.opt.formatOptions.enableFormat; c.nontrivial = needs_escape(v) || depth_of(v) >= 3 || nonDefault;
 	c.describe(vf::cat("json fwd ", refmp::show(v).substr(0, 200), " [", cfg.str(), "]")); if (cfg.stream) c.label(vf::cat("enc=", refutf::enc_name(static_cast<int>(cfg.opt.streamOptions.encoding)), cfg.opt.streamOptions.writeBom ? "+bom" : "-bom")); if (cfg.opt.formatOptions.enableFormat) c.label("pretty");
 	// history: a save that fails (JSON cannot represent NaN / Infinity) must not leave anything behind that shows up in the next document
-	if (c.src.chance(1, 4)) { c.label("after-a-failed-save"); Val bad = refmp::mkMap({ { refmp::mkStr("name"), refmp::mkStr("sensor") }, { refmp::mkStr("reading"), refmp::mkF64(c.src.coin() ? std::nan("") : HUGE_VAL) }, { refmp::mkStr("count"), refmp::mkInt(7) } }); std::string sink; Cfg bc = cfg; bc.stream = c.src.coin(); Outcome bo = dyn::save<JsonArchive>(bad, sink, bc); if (bo.ok()) { oj jj; try { jj = oj::parse(sink); } catch (const std::exception& e) { c.fail("an independent JSON parser rejects the document", vf::cat("NaN / Infinity saved without an error as: ", sink.substr(0, 200))); } } }
+	if (c.src.chance(1, 4)) { c.label("after-a-failed-save"); Val bad = refmp::mkMap({ { refmp::mkStr("name"), refmp::mkStr("sensor") }, { refmp::mkStr("reading"), refmp::mkF64(c.src.coin() ? std::nan("") : HUGE_VAL) }, { refmp::mkStr("count"), refmp::mkInt(7) } }); if (c.src.chance(1, 3)) bad = c.src.coin() ? refmp::mkF64(c.src.coin() ? std::nan("") : -HUGE_VAL) : refmp::mkF32(std::nanf(""));   /* also as the root value */ std::string sink; Cfg bc = cfg; bc.stream = c.src.coin(); Outcome bo = dyn::save<JsonArchive>(bad, sink, bc); if (bo.ok()) { oj jj; try { jj = oj::parse(sink); } catch (const std::exception& e) { c.fail("an independent JSON parser rejects the document", vf::cat("NaN / Infinity saved without an error as: ", sink.substr(0, 200))); } } }
 	std::string bytes; Outcome so = dyn::save<JsonArchive>(v, bytes, cfg);
 	const std::string d0 = vf::cat(refmp::show(v).substr(0, 300), " [", cfg.str(), "]");
 	if (!so.ok()) c.fail("saving a representable tree failed", vf::cat(so.str(), " | ", d0));
